@@ -84,3 +84,32 @@ func Harness_C20_SequenceUntidy() {
 		nd.Assert("sd:tidy-model", !failed && err == nil)
 	}
 }
+
+// the "blackboxes" attribute of an application or endpoint is a list of [target, comment]
+// entries; an entry with only a target (or none) is untidy but compiles
+func Harness_C20_BlackboxEntries() {
+	str := func(s string) *sysl.Attribute { return &sysl.Attribute{Attribute: &sysl.Attribute_S{S: s}} }
+	arr := func(es ...*sysl.Attribute) *sysl.Attribute {
+		return &sysl.Attribute{Attribute: &sysl.Attribute_A{A: &sysl.Attribute_Array{Elt: es}}}
+	}
+	var entries []*sysl.Attribute
+	n := nd.IntRange("entries", 0, 2)
+	for i := 0; i < n; i++ {
+		switch nd.IntRange("entry"+string(rune('0'+i))+"-elements", 0, 3) {
+		case 0:
+			entries = append(entries, arr())
+		case 1:
+			entries = append(entries, arr(str("B <- e")))
+		case 2:
+			entries = append(entries, arr(str("B <- e"), str("a comment")))
+		default:
+			entries = append(entries, arr(str("B <- e"), str("a comment"), str("extra")))
+		}
+	}
+	uptos := map[string]*Upto{}
+	failed, msg := nd.Recovered(func() {
+		TransformBlackboxesToUptos(uptos, TransformBlackBoxes(entries), BBApplication)
+	})
+	nd.Note(msg)
+	nd.Assert("sd:blackbox-entry-of-any-length", !failed)
+}
